@@ -95,15 +95,45 @@ def entry_variant(rng, text, c):
     return [("acc", text)]
 
 
+SEL_NUMBERS = [1, 1, 1, 2, 3, 5, 10]
+
+
+def switch_config(rng):
+    """errors interact with the sinks that are open when they are raised: every input is run under one of these configurations.
+    (selected-output switches are per user number: `cur n` selects the number the following selfile/selstr apply to)"""
+    r = rng.random()
+    sw = [("errstr", 1)]
+    if r < 0.35:
+        return sw + [("outstr", int(rng.random() < 0.4))], "strings-only"
+    if r < 0.50:
+        return sw + [("outstr", 1), ("logstr", 1), ("dumpstr", 1), ("selstr", 1)], "all-strings"
+    if r < 0.70:
+        sw += [("outfile", 1), ("errfile", 1), ("logfile", 1), ("dumpfile", 1)]
+        for n in sorted(set(rng.sample(SEL_NUMBERS, 3))):
+            sw += [("cur", n), ("selfile", 1)]
+        return sw + [("cur", 1)], "all-files"
+    if r < 0.85:
+        for n in sorted(set(rng.sample(SEL_NUMBERS, rng.choice([1, 2])))):
+            sw += [("cur", n), ("selfile", 1)] + ([("selstr", 1)] if rng.random() < 0.4 else [])
+        return sw + [("cur", rng.choice([1, 1, 2]))], "selected-output-file"
+    for name in ("outstr", "outfile", "errfile", "logstr", "logfile", "dumpstr", "dumpfile"):
+        if rng.random() < 0.5:
+            sw.append((name, 1))
+    for n in sorted(set(rng.sample(SEL_NUMBERS, 2))):
+        sw += [("cur", n), ("selfile", int(rng.random() < 0.6)), ("selstr", int(rng.random() < 0.5))]
+    return sw + [("cur", 1)], "mixed"
+
+
 def gen_case(rng, seeds):
     r = rng.random()
-    sw = [("errstr", 1), ("outstr", int(rng.random() < 0.3))]
+    sw, swname = switch_config(rng)
     if rng.random() < 0.06:
         sw.append(("erron", 0))
     elif rng.random() < 0.05:
         sw[0] = ("errstr", 0)
     pre = [("run", WARN_PRE)] if rng.random() < 0.25 else []
     c = mk_case("?", "", [], sw=sw, pre=pre)
+    c["switches"] = swname
     if r < 0.30:
         name, text, db = rng.choice(seeds)
         t, kinds = F.mutate(rng, text)
@@ -129,7 +159,7 @@ def gen_case(rng, seeds):
         t, kind = F.bytes_input(rng)
         c.update(family="bytes", tag=kind)
         c["ops"] = entry_variant(rng, t, c)
-    elif r < 0.87:
+    elif r < 0.85:
         t, tag = F.database_text(rng)
         c.update(family="database", tag=tag)
         if rng.random() < 0.6:
@@ -137,7 +167,13 @@ def gen_case(rng, seeds):
         else:
             c["files"]["db_mut.dat"] = t
             c["ops"] = [("loaddb", b"db_mut.dat")]
-    elif r < 0.90:
+    elif r < 0.885:
+        t, kind = F.midrecord_input(rng)
+        c.update(family="midrecord", tag=kind)
+        c["ops"] = entry_variant(rng, t, c)
+        if rng.random() < 0.7 and c["switches"] in ("strings-only", "all-strings"):      # this family is about open sinks
+            c["sw"], c["switches"] = [("errstr", 1), ("outfile", 1), ("dumpfile", 1), ("cur", 1), ("selfile", 1), ("cur", 2), ("selfile", 1), ("cur", 1)], "all-files"
+    elif r < 0.91:
         t, kind = F.numerics_input(rng)
         c.update(family="numerics", tag=kind)
         c["ops"] = entry_variant(rng, t, c)
@@ -257,6 +293,21 @@ def corpus_cases():
                                                                      ("run", b"USE solution 9\nEND\nSOLUTION 4\nEND\n")], sw=[("errstr", 1)],
                      reload=core, probe=GENERIC_PROBE))
     C.append(mk_case("corpus", "first-load-without-master-species", [("loaddbstr", b"SOLUTION_SPECIES\nH2O = H2O\n log_k 0\n")], sw=[("errstr", 1)]))
+    head = "SOLUTION 1\n pH 7\n Ca 1\n Cl 2\nSELECTED_OUTPUT 1\n -reset false\n -pH true\n"
+    filesw = [("errstr", 1), ("outfile", 1), ("dumpfile", 1), ("cur", 1), ("selfile", 1)]
+    twins = {
+        "punch-type-mismatch": head + "USER_PUNCH 1\n -headings a\n 10 a$ = 1 + \"x\"\n 20 PUNCH a$\nEND\n",
+        "punch-truncated-statement": head + "USER_PUNCH 1\n -headings a\n 10 PUNCH TOT(\"Ca\"\nEND\n",
+        "punch-next-without-for": head + "USER_PUNCH 1\n -headings a\n 10 FOR i = 1 TO 3\n 20 PUNCH i\n 30 NEXT j\nEND\n",
+        "calculate-values-error-at-punch": head + " -calculate_values cv\nCALCULATE_VALUES\ncv\n -start\n 10 x = 1 +\n 20 SAVE x\n -end\nEND\n",
+        "punch-error-in-second-simulation": head + "END\nUSER_PUNCH 1\n -headings a\n 10 PUNCH TOT(\"Ca\") / \"x\"\nUSE solution 1\nREACTION 1\n NaCl 1\n 1 mmol\nEND\n",
+        "print-error-with-output-file": "SOLUTION 1\n Na 1\nUSER_PRINT\n 10 PRINT 1 + \"x\"\nEND\n",
+        "punch-error-in-transport-cell": "SOLUTION 0-3\n Na 1\n Cl 1\nEND\nSELECTED_OUTPUT 1\n -totals Na\nUSER_PUNCH 1\n -headings a\n 10 IF CELL_NO = 2 THEN PUNCH 1 + \"x\" ELSE PUNCH 1\n"
+                                         "TRANSPORT\n -cells 3\n -shifts 2\nEND\n",
+    }
+    for tag, text in twins.items():
+        C.append(mk_case("corpus", tag + "-files-on", [("run", text.encode())], sw=filesw))
+        C.append(mk_case("corpus", tag + "-strings", [("run", text.encode())], sw=[("errstr", 1), ("outstr", 1), ("selstr", 1)]))
     C.append(mk_case("corpus", "kinetics-constant-rate", [("run", HANG_INPUT)], sw=[("errstr", 1)], timeout=5))
     C.append(mk_case("corpus", "load-missing-after-warning", [("loaddb", b"/nonexistent_dir_c08/x.dat")], sw=[("errstr", 1)], pre=[("run", WARN_PRE)]))
     C.append(mk_case("corpus", "load-missing-fresh", [("loaddb", b"/nonexistent_dir_c08/x.dat")], sw=[("errstr", 1)]))
@@ -976,6 +1027,7 @@ def run(ctx):
     mut_kinds, hang_sites, hist_stats = {}, {}, dict(histories=0, calls={}, reload_db={}, reload_no_END=0, reload_as_string=0)
     chunk = 960
     pending, base_hang = [], [None]
+    sw_stats = {}
     confirm_pool = concurrent.futures.ThreadPoolExecutor(max_workers=4)
     for base in range(0, len(cases), chunk):
         part = cases[base:base + chunk]
@@ -990,6 +1042,7 @@ def run(ctx):
                 for k in c["tag"].split(":", 1)[-1].split("+"):
                     mut_kinds[k.split("/")[0]] = mut_kinds.get(k.split("/")[0], 0) + 1
             inf = a["info"]
+            sw_stats[c.get("switches", "fixed")] = sw_stats.get(c.get("switches", "fixed"), 0) + 1
             if c.get("history"):
                 h = c["history"]
                 hist_stats["histories"] += 1
@@ -1048,6 +1101,7 @@ def run(ctx):
     ctx.cov["family_outcomes"] = fam
     ctx.cov["mutation_kinds"] = mut_kinds
     ctx.cov["histories"] = hist_stats
+    ctx.cov["switch_configurations"] = sw_stats
     ctx.cov["timeouts_not_routed_sampled_sites"] = hang_sites
     ctx.cov["deaths_in_calls_after_a_failed_call_not_judged"] = after_failed
     ctx.cov["outcomes"] = status
